@@ -359,6 +359,18 @@ fn main() {
             minimise::cmd_replay(&bin, "", &args.id)
         }
         "determinism" => cmd_determinism(&args),
+        "gencase" => {
+            // driver gencase <ID> --cases <index> [--seed N] [--replay out.json]: write case <index> as a replay file
+            let idx = args.cases.unwrap_or(0);
+            let base = Rng::new(args.seed).fork(simplan::fnv(args.id.as_bytes(), 0));
+            let mut rng = base.fork(idx);
+            let case = gen_case(&args.id, &mut rng, args.tier == "thorough");
+            let rf = minimise::ReplayFile { property: args.id.clone(), class: "generated".into(), detail: String::new(), note: format!("case {idx}"), cases: vec![case] };
+            let out = args.replay.clone().unwrap_or_else(|| "/dev/shm/case.json".into());
+            std::fs::write(&out, serde_json::to_vec_pretty(&rf).unwrap()).unwrap();
+            println!("{out}");
+            0
+        }
         "selftest" => match carrier::selfcheck() {
             Ok((n, ins)) => {
                 println!("selftest ok: sweep {n} entries, insensitive pairs {:?}", ins);
